@@ -41,18 +41,23 @@ impl Task for EpollJob {
         let stream = unsafe { &*(handle.stream_ptr) };
 
         let mut response = ResponseHandle::new(stream);
-        let keep_alive =
-            handle_one_request(stream, &mut response, &handle.handler_config).unwrap_or(false);
+        let result = handle_one_request(stream, &mut response, &handle.handler_config);
 
-        if keep_alive {
+        if let Ok(true) = result {
             handle.in_flight.store(false, Ordering::Release);
-        } else {
-            unsafe {
-                let _ = epoll_ctl(handle.epfd, EPOLL_CTL_DEL, handle.fd, ptr::null_mut());
-                drop(Box::from_raw(handle.stream_ptr)); // close connection
-            }
-            handle.closed.store(true, Ordering::Release);
+            return;
         }
+
+        // close the connection
+        unsafe {
+            let _ = epoll_ctl(handle.epfd, EPOLL_CTL_DEL, handle.fd, ptr::null_mut());
+            let stream = *Box::from_raw(handle.stream_ptr);
+            match &handle.handler_config.connection_teardown_hook {
+                Some(hook) => (hook)(stream, result.map(|_| ())),
+                None => drop(stream),
+            }
+        }
+        handle.closed.store(true, Ordering::Release);
     }
 }
 
@@ -111,9 +116,14 @@ impl Server {
                         };
                         if unsafe { epoll_ctl(epfd, EPOLL_CTL_ADD, fd, &mut cev) } == -1 {
                             // the connection cannot be served: release the record AND the socket
-                            unsafe {
+                            let err = io::Error::last_os_error();
+                            let stream = unsafe {
                                 drop(Box::from_raw(handle_ptr as *mut Handle));
-                                drop(Box::from_raw(stream_ptr));
+                                *Box::from_raw(stream_ptr)
+                            };
+                            match &self.handler_config.connection_teardown_hook {
+                                Some(hook) => (hook)(stream, Err(err)),
+                                None => drop(stream),
                             }
                         }
                     }
